@@ -54,3 +54,22 @@ Definition check_1204 (fs : list field) : verdict :=
   | [FZ kind; FZ calls; FZ good] => if calls <=? 0 then VSkip else expect 5 (good =? 1) [FZ kind]
   | _ => VBad 99 []
   end.
+
+(* 1205: j2t.Do after sync.Pool misses, under allocation pressure (finding 1203). fields: max field id of the top-level
+   struct, calls, spurious errors, wrong outputs (both relative to the same call run alone), and the same four numbers for
+   the control descriptor. The known defect needs the top-level Requires() bitmap ((maxid / 64 + 1) * 8 bytes) to fill the
+   fresh 4096-byte ReqsCache, so that the nested struct forces GrowReqCache while the outer state keeps a raw pointer into
+   the old array; what is then read there is whatever the allocator put into it, so the deviation cannot be predicted -
+   the selector is the scenario (bitmap >= 4096 bytes) together with a clean control (bitmap < 4096 bytes, same calls). *)
+Definition reqs_bitmap_bytes (maxid : Z) : Z := (maxid / 64 + 1) * 8.
+
+Definition check_1205 (fs : list field) : verdict :=
+  match fs with
+  | [FZ maxid; FZ calls; FZ errs; FZ wrong; FZ cmaxid; FZ ccalls; FZ cerrs; FZ cwrong] =>
+    if (calls <=? 0) || (ccalls <=? 0) then VSkip else
+    if negb ((cerrs =? 0) && (cwrong =? 0)) then VBad 6 [FZ cmaxid; FZ cerrs; FZ cwrong] else
+    if (errs =? 0) && (wrong =? 0) then VOk else
+    if (4096 <=? reqs_bitmap_bytes maxid) && (reqs_bitmap_bytes cmaxid <? 4096) then VKnown 1203
+    else VBad 1 [FZ maxid; FZ errs; FZ wrong]
+  | _ => VBad 99 []
+  end.
